@@ -67,6 +67,8 @@ type callPlan struct {
 	invokeAt, returnAt     time.Duration
 	mw          []string // client-side middleware trace
 	mwSrv       []string // processor-side middleware trace
+	mwSaw       []string // per middleware (innermost first): the result it saw coming back
+	via2        bool     // issued through the second client
 	shape       func(hdr map[string]string)
 	expectReqTooLarge, expectRespTooLarge, sizeAmbiguous bool
 	sizeInfo    string
@@ -80,6 +82,8 @@ type e2eEnv struct {
 	pf     *frugal.FProtocolFactory
 	tr     frugal.FTransport
 	client *simsvc.FSimSvcClient
+	client2 *simsvc.FSimSvcClient
+	prov2Spec []mwSpec
 	proc   frugal.FProcessor
 	plans  map[string]*callPlan
 	wire   []wireFrame
@@ -474,6 +478,9 @@ func (env *e2eEnv) invoke(p *callPlan) {
 	}
 	p.invokeStep, p.invokeAt = env.s.Step, env.s.Now()
 	c := env.client
+	if p.via2 && env.client2 != nil {
+		c = env.client2
+	}
 	switch p.method {
 	case "basePing":
 		p.gotRet, p.gotErr = c.BasePing(ctx, p.args[0].(string))
